@@ -873,3 +873,47 @@ pub fn request_position(rng: &mut Rng, text: &str) -> (u32, u32) {
 pub fn offset_of(text: &str, l: u32, c: u32) -> usize {
     offset_at(text, l, c)
 }
+
+/// An edit that touches the first or second token behind a statement-ish boundary (`;`, `}`, `)`,
+/// `{`) or drops a comment there: the region a reused node looks ahead into.
+pub fn boundary_edit(rng: &mut Rng, text: &str) -> (std::ops::Range<usize>, String) {
+    let toks = crude_tokens(text);
+    let bounds: Vec<usize> = toks
+        .iter()
+        .enumerate()
+        .filter(|(_, r)| matches!(&text[(*r).clone()], ";" | "}" | ")" | "{" | "]"))
+        .map(|(i, _)| i)
+        .collect();
+    if bounds.is_empty() {
+        return arbitrary_edit(rng, text, true);
+    }
+    let b = *rng.pick(&bounds);
+    let k = b + 1 + rng.below(2);
+    let repl = *rng.pick(&[
+        "", "", ";", ":=", "(", ")", "{", "}", "if", "else", "while", "var", "proc", "type", "x", "1", ":", "[", ",",
+        "// c\n", "ref",
+    ]);
+    match toks.get(k) {
+        Some(r) => match rng.below(4) {
+            0 => (r.clone(), repl.to_string()),                  // replace the token
+            1 => (r.start..r.start, format!("{repl} ")),          // insert before it
+            2 => (r.clone(), String::new()),                      // delete it
+            _ => (toks[b].end..toks[b].end, " // look ahead\n".to_string()), // a comment right behind the boundary
+        },
+        None => (text.len()..text.len(), repl.to_string()),
+    }
+}
+
+/// Writing a program from nothing: the text is typed at the end in pieces of 1..3 characters.
+pub fn type_from_scratch(rng: &mut Rng, program: &str, max_steps: usize) -> Vec<String> {
+    let chars: Vec<char> = program.chars().collect();
+    let mut out = vec![];
+    let mut i = 0;
+    while i < chars.len() && out.len() < max_steps {
+        let n = *rng.pick(&[1usize, 1, 1, 2, 3]);
+        let piece: String = chars[i..(i + n).min(chars.len())].iter().collect();
+        out.push(piece);
+        i += n;
+    }
+    out
+}
